@@ -58,6 +58,18 @@ Proof.
   apply andb_true_iff in Hin. exact Hin.
 Qed.
 
+(* the history for nclip = k+1 is one more round of the loop on the result for nclip = k *)
+Theorem iter_fit_succ wmask accum k : (count wmask =? minobj)%nat = false ->
+  iter_fit n fitres fit below minobj wmask accum (S k)
+  = clip_loop n fitres fit below minobj wmask accum 1 (iter_fit n fitres fit below minobj wmask accum k).
+Proof.
+  intros H. unfold iter_fit. rewrite H.
+  replace (S k) with (k + 1)%nat by lia. apply loop_prefix.
+Qed.
+Theorem iter_fit_reset wmask accum k : (count wmask =? minobj)%nat = true ->
+  iter_fit n fitres fit below minobj wmask accum k = iter_fit n fitres fit below minobj wmask accum 0.
+Proof. intros H. unfold iter_fit. rewrite H. reflexivity. Qed.
+
 (* the loop before fix 8ae115d: with clip_accum = False every positively weighted point that was NOT in
    the previous mask re-enters without being tested *)
 Definition legacy_step (wmask : mask) (accum : bool) (s : cstate fitres) : option (cstate fitres) :=
